@@ -401,6 +401,16 @@ class MetaHook(type):
         return '<class %s>' % cls.__name__
 
 
+class MetaGAHook(type):
+    """Metaclass whose __getattribute__ is a scenario callback for the attributes the engine reads while it CLASSIFIES a tuple
+    subclass (namedtuple?) - present attributes too, unlike MetaHook.__getattr__."""
+
+    def __getattribute__(cls, name):
+        if name in ('_fields', '_make', '_asdict', 'n_fields', 'n_sequence_fields', 'n_unnamed_fields'):
+            _h('meta.__getattribute__')
+        return type.__getattribute__(cls, name)
+
+
 class FalsyMeta(type):
     """Classes that are FALSY objects (a metaclass with __len__ / __bool__, e.g. an 'empty' enum-like or registry-like class):
     `if not cls` is not the same question as `if cls is None`."""
